@@ -78,6 +78,13 @@ func (s *Service) CreatePin(ctx context.Context, ref boson.Address, traverse boo
 	}
 
 	if traverse {
+		// repeating the pin of an already pinned reference has no further effect
+		switch has, err := s.HasPin(ref); {
+		case err != nil:
+			return err
+		case has:
+			return nil
+		}
 		if err := s.traverser.Traverse(ctx, ref, iterFn); err != nil {
 			return fmt.Errorf("traversal of %q failed: %w", ref, err)
 		}
@@ -104,6 +111,15 @@ func (s *Service) DeletePin(ctx context.Context, ref boson.Address) error {
 			iterErr = multierror.Append(err, fmt.Errorf("unable to unpin the chunk for leaf %q of root %q: %w", leaf, ref, err))
 			// Continue un-pinning all chunks.
 		}
+		return nil
+	}
+
+	// un-pinning a reference that is not pinned must not touch the chunks: they may
+	// be pinned through other references
+	switch has, err := s.HasPin(ref); {
+	case err != nil:
+		return err
+	case !has:
 		return nil
 	}
 
